@@ -402,7 +402,7 @@ func c09Watched(limit time.Duration, f func() string) (string, bool) {
 
 func c09Poison(c *Ctx) {
 	g := &c09Gen{c: c}
-	limit := 5 * time.Second
+	limit := 20 * time.Second
 	type call struct{ fn, a, b, name string }
 	// calls whose expanded pattern is not a regular expression (or whose argument is malformed):
 	// the Go function panics, the model answers None
